@@ -163,7 +163,9 @@ func (s *LinearState) Add(ctx *Context, id string, x Map) (string, error) {
 		return id, err
 	}
 
-	bs, err := json.Marshal(&x)
+	// Persist the prepared fact (an absolute 'expires' instead of a
+	// 'ttl') so that a reload reproduces what we keep in memory.
+	bs, err := json.Marshal(&m)
 	if err != nil {
 		return id, err
 	}
